@@ -23,7 +23,7 @@ TRUSTED_EXTRA = [
     "provenance of objfun arguments is a syntactic inventory of call sites (AST translator harness/gen_callsites.py) plus observed traces; that the step itself is never NaN is numerics (search)",
     "with projections the last projector is the bound box (C09)",
 ]
-ALLOW = ("bounds", "scaling", "avg", "soft", "hard", "npt", "growing", "regression", "noise", "randinit")
+ALLOW = ("bounds", "scaling", "proj", "avg", "soft", "hard", "npt", "growing", "regression", "noise", "randinit")
 
 
 def pre_build(ctx):
@@ -129,6 +129,28 @@ def _correspondence(ctx):
     ctx.cov["x0_clamp_correspondence"] = {"lines": len(lines), "mismatches": len(mism)}
     for m in mism[:3]:
         ctx.broke("correspondence:clampX0-vs-solve", {"line": m[0], "lean": m[1], "real": m[2]})
+    # scaled problems end-to-end: the first objfun argument must be remove_scaling(clamp(apply_scaling(x0))) clipped to the USER's bounds
+    lines, want = [], []
+    for i in range(ctx.scale(150, 2000)):
+        rng = np.random.default_rng([ctx.seed, 104, i])
+        xl = float(np.round(rng.normal() * 2, int(rng.integers(0, 3))))
+        xu = xl + float(np.round(abs(rng.normal()) * 2 + 0.5, int(rng.integers(0, 3))))
+        x0 = float(rng.choice([xl, xu, xl - 0.3, xu + 0.2, xu + 1e-9, rng.uniform(xl, xu)]))
+        seen = []
+
+        def f(x):
+            seen.append(float(x[0]))
+            return np.array([x[0] - 0.1, 1.0])
+        dfols.solve(f, np.array([x0]), bounds=(np.array([xl]), np.array([xu])), scaling_within_bounds=True, maxfun=1, do_logging=False)
+        z = (x0 - xl) / (xu - xl)
+        z = min(max(z, 0.0), 1.0) if z == z else z
+        lines.append("rmscale " + " ".join(fbits_raw(v) for v in (xl, xu - xl, xl, xu, z)))
+        want.append(fbits(seen[0]))
+    out = core.run_driver(lines, main="ClipMain.lean")
+    mism = [(l, o, w) for l, o, w in zip(lines, out, want) if canon(o) != canon(w)]
+    ctx.cov["scaled_first_eval_correspondence"] = {"lines": len(lines), "mismatches": len(mism)}
+    for m in mism[:3]:
+        ctx.broke("correspondence:scaled-first-evaluation", {"line": m[0], "lean": m[1], "real": m[2]})
     ctx.cov["callsites"] = {"evaluate_objective": len(gen_callsites.regenerate()[0]), "objfun": len(gen_callsites.regenerate()[1])}
 
 
